@@ -191,6 +191,9 @@ def yadrenko(ctx, rule="R02.3"):
 
 
 def run(ctx):
+    from .C03 import rounding_consistency
+
+    rounding_consistency(ctx, rule="R02.7")  # the order of the exponential integral must be rounded, not truncated: E_{n-1} instead of E_n gives |cor| > 1 (shared with C03)
     from .C13 import pair_agreement
 
     pair_agreement(ctx, rule="R02.6")  # the Yadrenko construction needs the exact great-circle -> chord map on the whole sphere: shared with C13
